@@ -695,6 +695,9 @@ func allocAliases(a *ssa.Alloc) []ssa.Value {
 
 var callSiteIndex = map[*ssa.Package]map[*ssa.Function][]*ssa.Call{}
 
+// CallSitesOf lists the static calls of f made from f's own package.
+func CallSitesOf(f *ssa.Function) []*ssa.Call { return callSitesOf(f) }
+
 // callSitesOf lists the static calls of f made from f's own package.
 func callSitesOf(f *ssa.Function) []*ssa.Call {
 	pkg := f.Pkg
